@@ -39,3 +39,8 @@ pub proof fn lemma_push_many(l: Seq<LAct>, m: Seq<LAct>)
         lemma_push(l + m.drop_last(), m.last());
     }
 }
+// the tasks of the first n jobs an action created
+pub open spec fn tasks_of(nj: Seq<(Id, (Job, TaskH))>, n: int) -> Set<TaskH> decreases n {
+    if n <= 0 { Set::<TaskH>::empty() } else { tasks_of(nj, n - 1).insert(nj[n - 1].1.1) }
+}
+pub open spec fn tasks_all(nj: Seq<(Id, (Job, TaskH))>) -> Set<TaskH> { tasks_of(nj, nj.len() as int) }
